@@ -222,6 +222,22 @@ impl GenerationPass for AvailableValuePass {
                 } else {
                     let mut map = node.memory_values_in();
                     map.forget_values_reading(&killed);
+                    // What the node overwrites with something that is not
+                    // tracked is no longer known
+                    for location in node.kill_memory_values() {
+                        match (location, node.reg_values_in().stack_offset()) {
+                            (MemoryLocation::StackOffset(offset), Some(curr_stack)) => {
+                                map.remove(&MemoryLocation::StackOffset(
+                                    curr_stack.wrapping_add(offset),
+                                ));
+                            }
+                            // Somewhere on the stack: any slot may be hit
+                            (MemoryLocation::StackOffset(_), None) => {
+                                map.retain(|key, _| !matches!(key, MemoryLocation::StackOffset(_)));
+                            }
+                            (location, _) => map.remove(&location),
+                        }
+                    }
                     if let Some((MemoryLocation::StackOffset(offset), value)) =
                         node.gen_memory_value()
                     {
